@@ -31,7 +31,7 @@ var kindNames = []string{"active", "read", "write", "exception", "inactive", "ev
 type HAct struct {
 	On  int    `json:"on"`
 	Do  string `json:"do"`            // ctxwrite | ctxtrigger | chwrite | chtrigger | ctxclose | panic
-	Arg string `json:"arg,omitempty"` // panic: value kind (error string runtime timeout neterr wrapped-neterr)
+	Arg string `json:"arg,omitempty"` // panic: value kind (error string runtime timeout neterr wrapped-neterr stringer-error)
 }
 
 // HSpec describes one handler instance.
@@ -109,11 +109,20 @@ func makePanicValue(kind string, n int) interface{} {
 		return &mock.NetErr{Msg: fmt.Sprintf("verif panic neterr #%d", n)}
 	case "wrapped-neterr":
 		return fmt.Errorf("verif wrapped #%d: %w", n, &mock.NetErr{Msg: "inner net error"})
+	case "stringer-error":
+		return &stringerErr{n: n}
 	case "runtime":
 		return "runtime" // placeholder: the real side provokes a genuine runtime error
 	}
 	return fmt.Errorf("verif panic error #%d", n)
 }
+
+// stringerErr is an error whose type also has a String method with another text (like *exec.ExitError or generated
+// protobuf error types): it is an error, so the exception must be this very value.
+type stringerErr struct{ n int }
+
+func (e *stringerErr) Error() string  { return fmt.Sprintf("verif panic stringer-error #%d", e.n) }
+func (e *stringerErr) String() string { return fmt.Sprintf("STRINGER<%d>", e.n) }
 
 func panicText(kind string, n int) string {
 	if kind == "runtime" {
